@@ -65,7 +65,7 @@ const (
 )
 
 var (
-	rootModuleRE           = regexp.MustCompile("^module ([^\n]+)\n")
+	rootModuleRE           = regexp.MustCompile(`(?m)^module[ \t]+(\S+)`)
 	errSentinelHasNoModule = errors.New("sentinel does not show module path")
 )
 
